@@ -1,4 +1,80 @@
-import MementoModel.Model.RunnerProg
-namespace Memento.Runner
-theorem placeholder_C03 : replay (.val none) = .val none := rfl
-end Memento.Runner
+import MementoModel.Lemmas.VersionSort
+
+/-!
+# C03 — function versions are deterministic
+
+Model: `Model/Version.lean`. The version of a function is a function of the program *table* (what
+each name is bound to: code token, references, variable value, explicit version) and of nothing
+else. The sources of non-determinism the real code is exposed to are parameters of the model:
+
+* `ord` — the order in which each definition's reference *set* is enumerated (Python `set`
+  iteration order: depends on hash randomisation and insertion history);
+* the order of the entries of the table (definition / import order).
+
+The version does not depend on either (theorems below, for all programs, all roots). The order in
+which versions are *queried* concerns the in-process cache (C13): the from-scratch `version` is a pure
+function. That code tokens themselves are canonical (e.g. `frozenset` constants rendered in sorted
+order, F6) is below the model and validated by the multi-process oracle of `c03.py`.
+-/
+namespace Memento.Version
+
+/-- the collected rule set does not depend on the enumeration order of reference sets -/
+theorem rules_perm_invariant (P : Prog) (ord ord' : List Name → List Name) (h : OrdOK ord) (h' : OrdOK ord')
+    (f : Name) (x : Node) : x ∈ rules P ord f ↔ x ∈ rules P ord' f := by
+  rw [mem_rules_nodeOK h, mem_rules_nodeOK h']
+
+/-- … hence neither does the key-ordered rule list that is hashed … -/
+theorem sortedRules_perm_invariant (P : Prog) (ord ord' : List Name → List Name) (h : OrdOK ord) (h' : OrdOK ord')
+    (f : Name) : sortedRules P ord f = sortedRules P ord' f :=
+  sortedRules_order_independent P h h' f
+
+/-- … nor the version, whatever the hash function -/
+theorem version_order_independent (H : Ser → List Char) (P : Prog) (ord ord' : List Name → List Name)
+    (h : OrdOK ord) (h' : OrdOK ord') (f : Name) : version H P ord f = version H P ord' f := by
+  unfold version versionInput
+  rw [sortedRules_order_independent P h h' f]
+
+/-- definition / import order: two tables that bind every name to the same definition give the same
+    version, with any (possibly different) enumeration orders -/
+theorem version_definition_order_independent (H : Ser → List Char) (P P' : Prog)
+    (hPP : ∀ n, lookup P n = lookup P' n) (ord ord' : List Name → List Name) (h : OrdOK ord) (h' : OrdOK ord')
+    (f : Name) : version H P ord f = version H P' ord' f := by
+  unfold version versionInput
+  have hs : sortedRules P ord f = sortedRules P' ord' f :=
+    sortedRules_congr (fun x => by rw [mem_rules_nodeOK h, mem_rules_nodeOK h', nodeOK_congr hPP])
+  rw [hs]
+  rw [filterMap_congr' (fun x _ => ruleHash_congr hPP H x)]
+
+/-- the version that enters the storage key (explicit or computed) is equally deterministic; hence a second
+    process running the unchanged program looks up exactly the keys the first one wrote, and by C02
+    (`memoized calls execute nothing`) executes no body -/
+theorem effectiveVersion_deterministic (H : Ser → List Char) (P P' : Prog)
+    (hPP : ∀ n, lookup P n = lookup P' n) (ord ord' : List Name → List Name) (h : OrdOK ord) (h' : OrdOK ord')
+    (f : Name) : effectiveVersion H P ord f = effectiveVersion H P' ord' f := by
+  unfold effectiveVersion
+  rw [hPP f]
+  split
+  · rfl
+  · exact version_definition_order_independent H P P' hPP ord ord' h h' f
+
+/-- the rule keys are unique: sorting by key is a canonical order -/
+theorem rules_keys_unique (P : Prog) (ord : List Name → List Name) (f : Name) : (sortedRules P ord f).Nodup :=
+  sortedRules_nodup P ord f
+
+/-! ### non-vacuity: a reversed table and reversed enumeration give the same version -/
+def exProg3 : Prog :=
+  [(0, .memento none 10 [1, 3, 5]), (1, .plain true 11 [2, 5]), (2, .memento none 12 [0]),
+   (3, .plain false 13 [4]), (4, .memento none 14 []), (5, .var (some 7))]
+
+/-- a hash function for examples: an injective rendering -/
+def exH : Ser → List Char
+  | .code s n t r => 'c' :: (if s then 's' else 'u') :: (List.replicate n 'n' ++ '.' :: List.replicate t 't' ++
+      r.flatMap (fun x => '.' :: List.replicate x 'r')) ++ [';']
+  | .value v => 'v' :: List.replicate v 'x' ++ [';']
+  | .rules s => 'r' :: s
+  | .explicit e => 'e' :: e ++ [';']
+
+example : rules exProg3 id 0 ≠ rules exProg3 List.reverse 0 := by decide +kernel
+example : version exH exProg3 id 0 = version exH exProg3.reverse List.reverse 0 := by decide +kernel
+
+end Memento.Version
